@@ -17,7 +17,9 @@ Subpaths == {[lens |-> l, closed |-> FALSE, lc |-> 0] : l \in LensSet}
             \cup {[lens |-> l, closed |-> TRUE, lc |-> c] : l \in LensSet, c \in 1..MAXL}
 Small == {[lens |-> <<2>>, closed |-> FALSE, lc |-> 0], [lens |-> <<1, 1>>, closed |-> TRUE, lc |-> 1],
           [lens |-> <<3, 2>>, closed |-> TRUE, lc |-> 3], [lens |-> <<5>>, closed |-> FALSE, lc |-> 0]}
-Init == /\ path \in (IF TWO THEN {<<a, b>> : a \in Small, b \in Subpaths} \cup {<<a, b>> : a \in Subpaths, b \in Small}
+\* subpaths that are a single point (MoveTo alone, or MoveTo, Close): they paint nothing and must not disturb the others
+Points == {[lens |-> <<>>, closed |-> FALSE, lc |-> 0], [lens |-> <<>>, closed |-> TRUE, lc |-> 0]}
+Init == /\ path \in (IF TWO THEN {<<a, b>> : a \in Small, b \in Subpaths \cup Points} \cup {<<a, b>> : a \in Subpaths \cup Points, b \in Small}
                      ELSE {<<a>> : a \in Subpaths})
         /\ A \in Arrays /\ off \in (-OFFR)..OFFR
         /\ sp = 0 /\ k = 0 /\ pos = 0 /\ ds = [index |-> 0, on |-> TRUE, rem |-> 0]
